@@ -24,6 +24,32 @@ func (emptyQuerier) SelectLogs(ctx context.Context, start, end otelstorage.Times
 
 // probeCmd: developer tool — parse and evaluate queries given as arguments over an empty store.
 func probeCmd(args []string) {
+	if len(args) > 1 && args[0] == "mq" {
+		// probe mq <query> <start_s> <end_s> <step_s> ts_s:labels(k=v,k=v):body ...
+		var recs []LRec
+		atoi := func(s string) int64 { var n int64; fmt.Sscan(s, &n); return n }
+		for _, a := range args[5:] {
+			p := strings.SplitN(a, ":", 3)
+			rec := LRec{TS: atoi(p[0]) * 1e9, Body: p[2]}
+			for _, kv := range strings.Split(p[1], ",") {
+				if kv != "" {
+					x := strings.SplitN(kv, "=", 2)
+					rec.Attrs = append(rec.Attrs, [2]string{x[0], x[1]})
+				}
+			}
+			recs = append(recs, rec)
+		}
+		for i := 0; i < 3; i++ {
+			mq := &mockQuerier{recs: recs}
+			data, err := evalQuery(mq, args[1], atoi(args[2])*1e9, atoi(args[3])*1e9, timeDur(atoi(args[4])*1e9), -1)
+			if err != nil {
+				fmt.Println("error:", err)
+				return
+			}
+			fmt.Println(metricDataSexp(data).String())
+		}
+		return
+	}
 	if len(args) > 0 && args[0] == "e2e" {
 		d, err := startFakeDaemon()
 		if err != nil {
